@@ -15,6 +15,9 @@ type Desc struct {
 type Dep struct {
 	Pkg  string `json:"pkg"`
 	Msgs []Msg  `json:"msgs"`
+	// Share: the file belongs to the proto package and Go package of the file to generate (a second .proto file
+	// of the same package which the generated file imports); its messages may be referred to by fields.
+	Share bool `json:"share"`
 }
 
 // Msg is a top-level message.
